@@ -41,9 +41,9 @@ def gen_front(rng, N, M):
         for _ in range(max(1, N // 5)):
             F[rng.randint(N)] = F[rng.randint(N)]
         return F
-    else:                                         # badly scaled objectives
+    else:                                         # badly scaled objectives, down to ranges of 1e-12
         F = rng.random_sample((3 * N, M))
-        F = F / F.sum(axis=1, keepdims=True) * (10.0 ** rng.randint(-3, 4, size=M))
+        F = F / F.sum(axis=1, keepdims=True) * (10.0 ** rng.choice([-12, -10, -9, -6, -3, 0, 0, 3], size=M))
     F = nds_front(np.unique(F, axis=0))
     if len(F) > N:
         F = F[rng.choice(len(F), N, replace=False)]
